@@ -537,6 +537,211 @@ def rule_contract(ctx) -> None:
                   f"{f.qual} uses {sec}.{k} as a {kind} (`{src(x)[:50]}`) but the validator accepts any value for it: an accepted config such as {{'{sec}': {{'{k}': 'x'}}}} makes a turn raise")
 
 
+COERCERS = {"_coerce_int", "_coerce_float", "_coerce_bool", "int", "float", "max", "min", "bool"}
+
+
+def _validator_subdicts(ctx, impl) -> Dict[str, Tuple[str, object]]:
+    """validator local -> (config path, binding node) for `x = _ensure_subdict(parent, "k")` chains from `merged`"""
+    cfg = ctx.cfg(impl)
+    out: Dict[str, Tuple[str, object]] = {"merged": ("", None)}
+    for _ in range(4):
+        for n in cfg.nodes:
+            a = n.ast
+            if n.kind == "stmt" and isinstance(a, ast.Assign) and len(a.targets) == 1 and isinstance(a.targets[0], ast.Name) and isinstance(a.value, ast.Call) \
+                    and call_tail(a.value) == "_ensure_subdict" and len(a.value.args) == 2 and isinstance(a.value.args[0], ast.Name) and const_str(a.value.args[1]):
+                par = a.value.args[0].id
+                if par in out and a.targets[0].id not in out:
+                    pp = out[par][0]
+                    out[a.targets[0].id] = ((pp + "." if pp else "") + const_str(a.value.args[1]), n)
+    return out
+
+
+def _always_coerced(ctx, impl, var: str, bind, key: str) -> bool:
+    """in every ACCEPTED run of the validator the value left under var[key] is not the user's raw value: every path from
+    the binding of the sub-dictionary to the exit stores a coerced value / a numeric constant there, or goes through the
+    branch where the user did not supply the key, or records an error (the configuration is rejected)"""
+    cfg = ctx.cfg(impl)
+    stores = set()
+    numeric = lambda v: isinstance(v, ast.Constant) and isinstance(v.value, (int, float)) and not isinstance(v.value, bool)
+
+    def coercing(v: ast.AST, local_coerced: Set[str]) -> bool:
+        if numeric(v):
+            return True
+        if isinstance(v, ast.Call) and (dotted(v.func) or "").split(".")[-1] in COERCERS:
+            return True
+        return isinstance(v, ast.Name) and v.id in local_coerced
+
+    # locals holding a coerced value:  itks = _coerce_int(...)
+    local_coerced: Set[str] = set()
+    for n in cfg.nodes:
+        a = n.ast
+        if n.kind == "stmt" and isinstance(a, ast.Assign) and len(a.targets) == 1 and isinstance(a.targets[0], ast.Name) and isinstance(a.value, ast.Call) \
+                and (dotted(a.value.func) or "").split(".")[-1] in COERCERS:
+            local_coerced.add(a.targets[0].id)
+    # keys bound by `for k in ("a", "b")`
+    loop_keys: Dict[str, Set[str]] = {}
+    for x in walk_no_defs(impl.node):
+        if isinstance(x, ast.For) and isinstance(x.target, ast.Name) and isinstance(x.iter, (ast.Tuple, ast.List)):
+            loop_keys.setdefault(x.target.id, set()).update({const_str(e) for e in x.iter.elts if const_str(e)})
+    # local helpers  def h(name, ...):  ...  var[name] = <coerced>
+    helpers: Dict[str, int] = {}
+    for ch in ctx.prog.all_funcs(impl.qual + "."):
+        if ch.parent is not impl:
+            continue
+        for y in walk_no_defs(ch.node):
+            if isinstance(y, ast.Assign):
+                for t in y.targets:
+                    if isinstance(t, ast.Subscript) and isinstance(t.value, ast.Name) and t.value.id == var and isinstance(t.slice, ast.Name) and t.slice.id in ch.params:
+                        loc2 = {z.targets[0].id for z in walk_no_defs(ch.node) if isinstance(z, ast.Assign) and len(z.targets) == 1 and isinstance(z.targets[0], ast.Name)
+                                and isinstance(z.value, ast.Call) and (dotted(z.value.func) or "").split(".")[-1] in COERCERS}
+                        if coercing(y.value, loc2):
+                            helpers[ch.name] = ch.params.index(t.slice.id)
+    for n in cfg.nodes:
+        a = n.ast
+        if n.kind == "stmt" and isinstance(a, ast.Assign) and coercing(a.value, local_coerced):
+            for t in a.targets:
+                if isinstance(t, ast.Subscript) and isinstance(t.value, ast.Name) and t.value.id == var:
+                    if const_str(t.slice) == key or (isinstance(t.slice, ast.Name) and key in loop_keys.get(t.slice.id, set())):
+                        stores.add(n)
+        for c in node_calls(n):
+            if isinstance(c.func, ast.Name) and c.func.id in helpers and len(c.args) > helpers[c.func.id] and const_str(c.args[helpers[c.func.id]]) == key:
+                stores.add(n)
+            if call_tail(c) == "_err":
+                stores.add(n)  # the configuration is rejected on this path
+    # `for k in ("a", "b"): var[k] = coerce(...)` as a direct statement of the loop body: the loop over a non-empty literal
+    # runs for every listed key, so the loop head itself stands for the store
+    for x in walk_no_defs(impl.node):
+        if isinstance(x, ast.For) and isinstance(x.target, ast.Name) and isinstance(x.iter, (ast.Tuple, ast.List)) and key in {const_str(e) for e in x.iter.elts}:
+            for st in x.body:
+                if isinstance(st, ast.Assign) and coercing(st.value, local_coerced) and any(
+                        isinstance(t, ast.Subscript) and isinstance(t.value, ast.Name) and t.value.id == var and isinstance(t.slice, ast.Name) and t.slice.id == x.target.id for t in st.targets):
+                    stores |= set(cfg.nodes_of(x))
+    if not any(n for n in stores if not any(call_tail(c) == "_err" for c in node_calls(n))):
+        return False
+    absent = set()
+    for n in cfg.nodes:
+        if n.kind == "cond" and isinstance(n.ast, ast.Compare) and len(n.ast.ops) == 1 and isinstance(n.ast.ops[0], ast.In) and const_str(n.ast.left) == key:
+            absent |= {t for t, l in n.succ if l == "F"}
+        if n.kind == "cond" and isinstance(n.ast, ast.Compare) and len(n.ast.ops) == 1 and isinstance(n.ast.ops[0], ast.NotIn) and const_str(n.ast.left) == key:
+            absent |= {t for t, l in n.succ if l == "T"}
+    from ..util import no_exc
+    return cfg.path([bind], lambda x: x is cfg.exit, avoid=lambda x: x in stores or x in absent, edge_ok=no_exc, include_start=False) is None
+
+
+def rule_contract_nested(ctx) -> None:
+    """numeric uses of nested configuration values (t*.cache.*, ...) in the engine: every key that can supply the value
+    in a validated config is one the validator stores coerced.  `D.get(K1, D.get(K2, d))` is supplied by K1, and by K2 only
+    if K1 is not always present after validation - so preferring a raw alias over the normalised key is a violation."""
+    from ..paths import PathEval
+    impl = ctx.func(IMPL)
+    subs = _validator_subdicts(ctx, impl)
+    by_path = {p: (v, n) for v, (p, n) in subs.items() if p and "." in p}
+    if len(by_path) < 8:
+        raise AnalysisError("anchor-vanished: nested _ensure_subdict bindings of the validator")
+    pe = PathEval(ctx, depth=2)
+    from .c02 import _dead_key, _validator_tables
+    tables = _validator_tables(ctx)
+    memo: Dict[Tuple[str, str], bool] = {}
+
+    def coerced(path: str, key: str) -> bool:
+        if (path, key) not in memo:
+            v, n = by_path[path]
+            memo[(path, key)] = _always_coerced(ctx, impl, v, n, key)
+        return memo[(path, key)]
+
+    def _stage_cfg_path(recv: ast.AST, at, rd) -> Optional[str]:
+        """`c = cfg_t1.get("cache", {}) or {}` -> "t1.cache" (stage functions receive their section as a parameter)"""
+        v = recv
+        if isinstance(v, ast.Name):
+            ds = [d for d in rd.reaching(v.id, at) if d.kind in ("assign", "walrus")]
+            if len(ds) != 1 or ds[0].value is None:
+                return None
+            v = ds[0].value
+        if isinstance(v, ast.BoolOp) and isinstance(v.op, ast.Or):
+            v = v.values[0]
+        if isinstance(v, ast.Call) and dotted(v.func) in ("_ensure_dict", "dict") and v.args:
+            v = v.args[0]
+        if isinstance(v, ast.Call) and isinstance(v.func, ast.Attribute) and v.func.attr == "get" and isinstance(v.func.value, ast.Name) and v.args and const_str(v.args[0]):
+            r = v.func.value.id
+            if r in ("cfg_t1", "cfg_t2", "cfg_t3", "cfg_t4"):
+                return f"{r[-2:]}.{const_str(v.args[0])}"
+        return None
+
+    def suppliers(fn, e, at, rd, depth=0) -> Set[Tuple[str, str]]:
+        """(sub-dict path, key) pairs that can supply the value of e in a validated config"""
+        out: Set[Tuple[str, str]] = set()
+        if depth > 6 or e is None:
+            return out
+        if isinstance(e, ast.Call) and isinstance(e.func, ast.Attribute) and e.func.attr == "get" and e.args and const_str(e.args[0]):
+            try:
+                ps = pe.paths(fn, e.func.value, at)
+            except Exception:
+                ps = frozenset()
+            hit = False
+            if not any(r == "cfg" and ".".join(ks) in by_path for r, ks in ps):
+                mp = _stage_cfg_path(e.func.value, at, rd)
+                if mp is not None:
+                    ps = frozenset({("cfg", tuple(mp.split(".")))})
+            for r, ks in ps:
+                path = ".".join(ks)
+                if r == "cfg" and path in by_path:
+                    hit = True
+                    k = const_str(e.args[0])
+                    out.add((path, k))
+                    if len(e.args) > 1 and not coerced(path, k):
+                        out |= suppliers(fn, e.args[1], at, rd, depth + 1)
+            if not hit and len(e.args) > 1:
+                out |= suppliers(fn, e.args[1], at, rd, depth + 1)
+            return out
+        if isinstance(e, ast.Name):
+            for d in rd.reaching(e.id, at):
+                if d.kind in ("assign", "walrus") and d.value is not None:
+                    out |= suppliers(fn, d.value, d.node, rd, depth + 1)
+            return out
+        if isinstance(e, ast.IfExp):
+            return suppliers(fn, e.body, at, rd, depth + 1) | suppliers(fn, e.orelse, at, rd, depth + 1)
+        if isinstance(e, ast.BoolOp):
+            for v in e.values:
+                out |= suppliers(fn, v, at, rd, depth + 1)
+            return out
+        return out
+
+    n_uses = 0
+    seen: Set[Tuple[str, str, str]] = set()
+    for fn in ctx.prog.all_funcs("clematis.engine."):
+        if not any(isinstance(x, ast.Call) and dotted(x.func) in ("int", "float") for x in walk_no_defs(fn.node)):
+            continue
+        cfg = None
+        for x in walk_no_defs(fn.node):
+            if not (isinstance(x, ast.Call) and dotted(x.func) in ("int", "float") and x.args):
+                continue
+            if "get(" not in src(x.args[0]) and not isinstance(x.args[0], (ast.Name, ast.IfExp)):
+                continue
+            if guarded_by_catch_all(ctx.prog, fn, x) is not None:
+                continue
+            if cfg is None:
+                cfg = ctx.cfg(fn)
+            nodes = cfg.node_containing(x)
+            if not nodes:
+                continue
+            sup = suppliers(fn, x.args[0], nodes[0], ctx.rd(fn))
+            if not sup:
+                continue
+            n_uses += 1
+            for path, k in sorted(sup):
+                if (fn.qual, path, k) in seen:
+                    continue
+                seen.add((fn.qual, path, k))
+                if _dead_key(tables, f"{path}.{k}"):
+                    ctx.info("C14.CONTRACT", f"{fn.qual}/nested-number:{path}.{k}", fn.loc(x), f"{path}.{k} is read by the engine but rejected by the validator as an unknown key")
+                    continue
+                ctx.check(coerced(path, k), "C14.CONTRACT", f"{fn.qual}/nested-number:{path}.{k}", fn.loc(x),
+                          f"{path}.{k} can supply `{src(x)[:40]}` and is stored coerced by the validator on every path",
+                          f"`{src(x)[:60]}` can take its value from {path}.{k}, which the validator leaves as the user wrote it (it normalises another key of that section): "
+                          f"an accepted config such as {{'{path.split('.')[0]}': {{'{path.split('.')[1]}': {{'{k}': '10m'}}}}}} makes the turn raise, and an out-of-range value is used unchecked")
+    ctx.floor("C14.CONTRACT", "numeric uses of nested configuration values in the engine", n_uses, 4)
+
+
 def run(ctx) -> None:
     rule_pure(ctx)
     rule_api(ctx)
@@ -544,3 +749,4 @@ def run(ctx) -> None:
     rule_range(ctx)
     rule_total(ctx)
     rule_contract(ctx)
+    rule_contract_nested(ctx)
